@@ -582,8 +582,8 @@ func init() {
 		ID:    "C03",
 		Level: "model_checking",
 		Rule: "case = (frame cells, index shape, order list[, seam entry]) enumerated exhaustively per layer " +
-			"(L1: all frames n<=N over per-type 3-value+null alphabets x {0,1} second key x all 40 order lists x 5 index shapes; " +
-			"L2: all int sequences over {0,1} and {0,1,2} up to the stated lengths (all 5 index shapes for lengths 11..15, one rotating shape otherwise), ninther-size base patterns on all shapes in both directions with all <=2 point deviations; " +
+			"(L1: all frames n<=N over per-type 3-value+null alphabets x {0,1} second key x all 40 order lists x 7 index shapes; " +
+			"L2: all int sequences over {0,1} and {0,1,2} up to the stated lengths (all 7 index shapes for lengths 11..15, one rotating shape otherwise), ninther-size base patterns on all shapes in both directions with all <=2 point deviations; " +
 			"L3: real quickSort/heapSort entered through the seam on all small sequences/permutations and sub-ranges, plus adversarial inputs). " +
 			"Non-trivial = the keys hold at least two distinct values (L1) / length >= 2 (others); distinct by enumeration index.",
 		Assumptions: []string{
